@@ -415,4 +415,8 @@ def run(ctx):
     with res.guard("check_swap_atomic"):
         check_swap_atomic(ctx, res)
     res.assumptions += ["the vertex-labelled sampler is outside the property's quantifier (label in {'edge','stub'})", "an unrecognised rewrite of these functions is an ANALYSIS-ERROR (exit 2), not a violation"]
+    with res.guard("general lint pack over the property's files"):
+        from ..lints import check_pack
+
+        check_pack(ctx, res, "C13")
     return res
